@@ -61,6 +61,58 @@ func allowedOrigin(p *core.Program, v ssa.Value, ri *core.ResultInfo, depth int,
 			}
 		}
 		return false, "decision computed by " + x.String()
+	case *ssa.UnOp, *ssa.Field:
+		// entry := helper(result); ... entry.allowed: a boolean field of a small struct a helper of
+		// the package returns - every value the helper stores into that field must be a decision
+		var base ssa.Value
+		fidx := -1
+		switch y := x.(type) {
+		case *ssa.UnOp:
+			if fa, ok := y.X.(*ssa.FieldAddr); ok && y.Op == token.MUL {
+				base, fidx = fa.X, fa.Field
+			}
+		case *ssa.Field:
+			base, fidx = y.X, y.Field
+		}
+		if base != nil {
+			call, _ := core.ValueOrigin(base).(*ssa.Call)
+			if al, ok := base.(*ssa.Alloc); ok && call == nil {
+				if sts := core.CellStores(al); len(sts) == 1 {
+					call, _ = core.ValueOrigin(sts[0].Val).(*ssa.Call)
+				}
+			}
+			if call != nil {
+				if h := call.Common().StaticCallee(); h != nil && h.Blocks != nil && core.FuncPkg(h) != nil && core.FuncPkg(h).Path() == checkPkg {
+					st := core.NamedOf(call.Type())
+					var ds []string
+					n := 0
+					bad := ""
+					core.Instrs(h, func(_ *ssa.BasicBlock, _ int, ins ssa.Instruction) {
+						s2, ok := ins.(*ssa.Store)
+						if !ok {
+							return
+						}
+						fa, ok := s2.Addr.(*ssa.FieldAddr)
+						if !ok || fa.Field != fidx || st == nil || core.NamedOf(fa.X.Type()) != st {
+							return
+						}
+						n++
+						o, d := allowedOrigin(p, s2.Val, ri, depth+1, seen)
+						if !o {
+							bad = core.FuncName(h) + ": " + d
+						}
+						ds = append(ds, d)
+					})
+					if n > 0 && bad == "" {
+						return true, core.FuncName(h) + " -> " + strings.Join(dedupe(ds), " | ")
+					}
+					if bad != "" {
+						return false, bad
+					}
+				}
+			}
+		}
+		return false, "decision has an unrecognised origin: " + v.String()
 	case *ssa.Phi:
 		var ds []string
 		for _, e := range x.Edges {
@@ -208,6 +260,8 @@ func membershipFromEngine(m ssa.Value) (bool, string) {
 			}
 		case *ssa.Index:
 			return walk(x.X)
+		case *ssa.IndexAddr:
+			return walk(x.X) // &results[i].Membership
 		case *ssa.Alloc:
 			for _, st := range core.CellStores(x) {
 				return walk(st.Val)
@@ -867,6 +921,21 @@ func iterSources(v ssa.Value) (srcs map[ssa.Value]bool, fixed bool) {
 					}
 					// fields and elements written into the cell
 					walk(a, stack, depth+1)
+					return
+				}
+			}
+			walk(x.X, stack, depth+1)
+			return
+		case *ssa.IndexAddr:
+			// &xs[k].f read in place: the element of iteration k
+			if _, isSlice := x.X.Type().Underlying().(*types.Slice); isSlice {
+				if _, isK := core.IntConst(x.Index); isK {
+					if _, isPar := core.ValueOrigin(x.X).(*ssa.Parameter); isPar {
+						fixed = true
+						return
+					}
+				} else if loopCounter(x.Index) {
+					srcs[core.ValueOrigin(x.Index)] = true
 					return
 				}
 			}
